@@ -1,0 +1,48 @@
+//go:build verif
+
+package kapacitor
+
+import "time"
+
+// Verification hooks for property C16 (batch query ranges and ticks). Add-only, compiled only with
+// the build tag `verif`; nothing here is reachable from a production build.
+
+// VerifTicker mirrors the unexported ticker interface of batch.go.
+type VerifTicker interface {
+	Start() <-chan time.Time
+	Stop()
+	Next(now time.Time) time.Time
+}
+
+// VerifNewTimeTicker returns the real every()/align() ticker used by query nodes.
+func VerifNewTimeTicker(every time.Duration, align bool) VerifTicker {
+	return newTimeTicker(every, align)
+}
+
+// VerifNewCronTicker returns the real cron() ticker used by query nodes.
+func VerifNewCronTicker(expr string) (VerifTicker, error) {
+	t, err := newCronTicker(expr)
+	if err != nil {
+		return nil, err
+	}
+	return t, nil
+}
+
+// VerifWrapQueryTickers replaces the ticker of every InfluxQL query node under the batch source of
+// et by wrap(i, current ticker) and returns how many were replaced. It must be called before
+// StartBatching (the ticker is started there); tick delivery can then be driven by the caller while
+// Next still reaches the real ticker.
+func VerifWrapQueryTickers(et *ExecutingTask, wrap func(i int, orig VerifTicker) VerifTicker) int {
+	batcher, ok := et.source.(*BatchNode)
+	if !ok {
+		return 0
+	}
+	n := 0
+	for i, c := range batcher.children {
+		if qn, ok := c.(*QueryNode); ok {
+			qn.ticker = wrap(i, qn.ticker)
+			n++
+		}
+	}
+	return n
+}
